@@ -185,12 +185,24 @@ func (i *Injector) marshal(cfg *config.Config) ([]byte, error) {
 		return nil, errors.Wrapf(err, "unmarshal marshaled config")
 	}
 
+	// an empty separator or replacement of a relabel rule is left out by the marshaller,
+	// prometheus would read the default (";" / "$1") back, so put them back too
+	for idx, job := range cfg.ScrapeConfigs {
+		node := yamlChild(yamlChild(root, "scrape_configs"), idx)
+		restoreEmptyRelabelFields(yamlChild(node, "relabel_configs"), job.RelabelConfigs)
+		restoreEmptyRelabelFields(yamlChild(node, "metric_relabel_configs"), job.MetricRelabelConfigs)
+	}
+	restoreEmptyRelabelFields(yamlChild(yamlChild(root, "alerting"), "alert_relabel_configs"), cfg.AlertingConfig.AlertRelabelConfigs)
+
 	for idx, am := range cfg.AlertingConfig.AlertmanagerConfigs {
-		restoreClientSecrets(yamlChild(yamlChild(yamlChild(root, "alerting"), "alertmanagers"), idx), am.HTTPClientConfig)
+		node := yamlChild(yamlChild(yamlChild(root, "alerting"), "alertmanagers"), idx)
+		restoreClientSecrets(node, am.HTTPClientConfig)
+		restoreEmptyRelabelFields(yamlChild(node, "relabel_configs"), am.RelabelConfigs)
 	}
 	for idx, w := range cfg.RemoteWriteConfigs {
 		node := yamlChild(yamlChild(root, "remote_write"), idx)
 		restoreClientSecrets(node, w.HTTPClientConfig)
+		restoreEmptyRelabelFields(yamlChild(node, "write_relabel_configs"), w.WriteRelabelConfigs)
 		if w.SigV4Config != nil {
 			restoreSecret(yamlChild(node, "sigv4"), "secret_key", string(w.SigV4Config.SecretKey))
 		}
@@ -217,6 +229,27 @@ func yamlChild(node interface{}, key interface{}) interface{} {
 		}
 	}
 	return nil
+}
+
+// restoreEmptyRelabelFields add the "separator" and "replacement" keys that are empty in rules to the marshaled rules
+func restoreEmptyRelabelFields(node interface{}, rules []*relabel.Config) {
+	list, ok := node.([]interface{})
+	if !ok || len(list) != len(rules) {
+		return
+	}
+	for idx, rule := range rules {
+		m, ok := list[idx].(yaml.MapSlice)
+		if !ok {
+			continue
+		}
+		if rule.Separator == "" {
+			m = append(m, yaml.MapItem{Key: "separator", Value: ""})
+		}
+		if rule.Replacement == "" {
+			m = append(m, yaml.MapItem{Key: "replacement", Value: ""})
+		}
+		list[idx] = m
+	}
 }
 
 func restoreSecret(node interface{}, key string, secret string) {
